@@ -99,7 +99,7 @@ pub fn run(args: &Args, mon: &mut Mon) -> (String, Vec<&'static str>) {
     let thorough = args.thorough();
     let scale = args.param_u64("scale", 1);
     let seed = args.seed;
-    let n: u64 = if thorough { 60_000 * scale } else { 3_000 * scale };
+    let n: u64 = if thorough { 20_000 * scale } else { 3_000 * scale };
     par_run(mon, args.threads, n, |i, m| {
         if !args.mine(i) {
             return;
